@@ -1,12 +1,14 @@
 (* C01 — the standing concrete instance over Qc: the exactly rational 2-qubit normalised Pauli basis (entries 0, +-1/2, +-i/2; sd = 2),
-   witnesses of the _refuted theorems, and non-vacuity examples.  Everything here is computed (vm_compute) through boolean reflections. *)
-From Coq Require Import QArith Qcanon Arith Lia Bool List.
+   witnesses of the _refuted theorems (verdicts AS CODED BEFORE the repairs fixes/C01-state-is-trace-one-rtol.diff and
+   fixes/C01-povm-is-identity-sum-rtol.diff, i.e. with rtol = np_rtol), and non-vacuity examples for every object type.
+   Everything here is computed (vm_compute) through boolean reflections; verdicts containing a PSD decision are first rewritten
+   into their memoised executable form (Proofs/C01_Exec.v), which is proved equal. *)
+From Coq Require Import ZArith QArith Qcanon Arith Lia Bool List.
 From QV.Core Require Import OF QcOF Sums Mat Cplx Psd C01_HermPsd.
+From QV.Exec Require Import Base Core_ops C01_ops.
 From QV.Model Require Import QObj HermEmbed C01_Verdicts.
-From QV.Proofs Require Import C01_Verdicts.
+From QV.Proofs Require Import C01_Verdicts C01_Exec.
 
-Notation Fq := Qc_OF.
-Notation Cq := (CF Qc_OF).
 Local Open Scope Qc_scope.
 
 Definition qc (n : Z) (d : positive) : Qc := Q2Qc (n # d).
@@ -57,29 +59,61 @@ Proof. split; [|split]. - apply Qc_is_canon. reflexivity. - apply (proj1 (k_leb 
 
 Lemma not_le_of_leb (x y : Qc) : kleb Fq x y = false -> ~ kle Fq x y.
 Proof. intros E H. apply (proj2 (k_leb Fq x y)) in H. congruence. Qed.
+Ltac compute_true := vm_cast_no_check (@eq_refl bool true).
+Ltac compute_false := vm_cast_no_check (@eq_refl bool false).
 
-(* ---- witnesses: a defect of 5e-6 is accepted at atol = 1e-13 by the verdicts as coded (numpy's default rtol) *)
+(* ---- executable forms of is_physical (frozen operators, memoised PSD decision), proved equal to the model *)
+Definition x_state_phys (st rtol : Qc) d (B : nat -> cmat Fq) (v : rvec Fq) (aeq aineq : option Qc) : bool :=
+  let H := cfreeze d (op_of_vec d B v) in
+  @ciscl Fq (mtrace d H) (c1 Cq) 1%Qc (@resolve_atol Fq st aeq) rtol && x_is_psd d H (@resolve_atol Fq st aineq).
+Lemma x_state_phys_eq st rtol d B v aeq aineq : x_state_phys st rtol d B v aeq aineq = @state_is_physical Fq st rtol d B v aeq aineq.
+Proof. unfold x_state_phys, state_is_physical, state_is_trace_one, state_trace, state_is_psd. cbv zeta.
+  pose proof (cfreeze_meq d (op_of_vec d B v)) as E. now rewrite (mtrace_ext d _ _ E), (x_is_psd_meq d _ _ _ E). Qed.
+Definition x_povm_phys (st rtol : Qc) d (B : nat -> cmat Fq) m (vs : nat -> rvec Fq) (aeq aineq : option Qc) : bool :=
+  let E := x_povm_elems d B m vs in
+  fst (x_povm_eq d m E (@resolve_atol Fq st aeq) rtol) && allb m (fun x => x_is_psd d (E x) (@resolve_atol Fq st aineq)).
+Lemma x_povm_phys_eq st rtol d B m vs aeq aineq : x_povm_phys st rtol d B m vs aeq aineq = @povm_is_physical Fq st rtol d B m vs aeq aineq.
+Proof. unfold x_povm_phys, povm_is_physical. cbv zeta. now rewrite x_povm_eq_eq, x_povm_psd_eq. Qed.
+Definition x_gate_phys (st : Qc) flag d (B : nat -> cmat Fq) (HS : rmat Fq) (aeq aineq : option Qc) : bool :=
+  gate_is_tp flag d B HS (@resolve_atol Fq st aeq) && x_is_psd (d * d) (x_choi d B HS) (@resolve_atol Fq st aineq).
+Lemma x_gate_phys_eq st flag d B HS aeq aineq : x_gate_phys st flag d B HS aeq aineq = @gate_is_physical Fq st flag d B HS aeq aineq.
+Proof. unfold x_gate_phys, gate_is_physical. now rewrite x_gate_is_cp_eq. Qed.
+Definition x_mp_phys (st : Qc) flag d (B : nat -> cmat Fq) m (hss : nat -> rmat Fq) (aeq aineq : option Qc) : bool :=
+  gate_is_tp flag d B (freeze 0%Qc (d * d) (d * d) (mprocess_sum_hs m hss)) (@resolve_atol Fq st aeq)
+  && allb m (fun x => x_is_psd (d * d) (x_choi d B (hss x)) (@resolve_atol Fq st aineq)).
+Lemma x_mp_phys_eq st flag d B m hss aeq aineq : (0 < d)%nat ->
+  x_mp_phys st flag d B m hss aeq aineq = @mprocess_is_physical Fq st flag d B m hss aeq aineq.
+Proof. intros Hd. unfold x_mp_phys, mprocess_is_physical, mprocess_is_sum_tp, mprocess_is_cp.
+  rewrite (gate_is_tp_frozen flag d B _ _ Hd). f_equal. apply allb_ext; intros x _. apply x_gate_is_cp_eq. Qed.
+
+(* ---- witnesses: a defect of 5e-6 is accepted at atol = 1e-13 by the verdicts AS CODED BEFORE THE REPAIRS (numpy's default rtol),
+        and rejected by the repaired verdicts (rtol = 0) *)
 Definition w_atol : Qc := qc 1 10000000000000.
 Definition w_state : rvec Fq := fun a => if Nat.eqb a 0 then qc 200001 400000 else 0.          (* (1 + 5e-6)/2 *)
 Definition w_povm : nat -> rvec Fq := fun _ a => if Nat.eqb a 0 then qc 200001 200000 else 0.   (* each element (1 + 5e-6)/2 * I *)
 
 Lemma w_state_coded : state_is_trace_one 4 pauli2n w_state w_atol np_rtol = true.
-Proof. vm_compute. reflexivity. Qed.
+Proof. compute_true. Qed.
 Lemma w_state_fixed : state_is_trace_one 4 pauli2n w_state w_atol (c0 Fq) = false.
-Proof. vm_compute. reflexivity. Qed.
+Proof. compute_false. Qed.
 Lemma w_state_defect : ~ kle Fq (kabs (csub Fq (re (state_trace 4 pauli2n w_state)) (c1 Fq))) w_atol.
-Proof. apply not_le_of_leb. vm_compute. reflexivity. Qed.
+Proof. apply not_le_of_leb. compute_false. Qed.
 Lemma w_state_ctor : @state_ctor_raises Fq w_atol np_rtol 4 pauli2n w_state true = false
                   /\ @state_ctor_raises Fq w_atol (c0 Fq) 4 pauli2n w_state true = true.
-Proof. split; vm_compute; reflexivity. Qed.
+Proof. unfold state_ctor_raises, ctor_raises. rewrite <- !x_state_phys_eq. split; [compute_false|compute_true]. Qed.
 
 Lemma w_povm_coded : povm_is_identity_sum 4 pauli2n 2 w_povm w_atol np_rtol = true.
-Proof. vm_compute. reflexivity. Qed.
+Proof. compute_true. Qed.
 Lemma w_povm_fixed : povm_is_identity_sum 4 pauli2n 2 w_povm w_atol (c0 Fq) = false.
-Proof. vm_compute. reflexivity. Qed.
+Proof. compute_false. Qed.
 Lemma w_povm_defect : ~ kle Fq (znorm2 (zsub (povm_sum 4 pauli2n 2 w_povm 0%nat 0%nat) (cdelta 0%nat 0%nat))) (cmul Fq w_atol w_atol).
-Proof. apply not_le_of_leb. vm_compute. reflexivity. Qed.
+Proof. apply not_le_of_leb. compute_false. Qed.
+Lemma w_povm_ctor : @povm_ctor_raises Fq w_atol np_rtol 4 pauli2n 2 w_povm true = false
+                 /\ @povm_ctor_raises Fq w_atol (c0 Fq) 4 pauli2n 2 w_povm true = true.
+Proof. unfold povm_ctor_raises, ctor_raises. rewrite <- !x_povm_phys_eq. split; [compute_false|compute_true]. Qed.
 
+(* the verdict of State.is_trace_one AS CODED BEFORE fix C01-state-is-trace-one-rtol (rtol = np_rtol = 1e-5) is true on an object whose
+   exact trace defect exceeds atol: "atol is the only slack" is false of that code *)
 Theorem state_trace_verdict_refuted :
   exists (d : nat) (sd : Qc) (B : nat -> cmat Fq) (v : rvec Fq) (atol : Qc),
     basis_orthonormal d B /\ basis_hermitian d B /\ @basis_0th_identity Fq d sd B /\ kle Fq (c0 Fq) atol /\
@@ -88,6 +122,7 @@ Theorem state_trace_verdict_refuted :
 Proof. exists 4%nat, q2, pauli2n, w_state, w_atol.
   split; [exact pauli2n_orthonormal|]. split; [exact pauli2n_hermitian|]. split; [exact pauli2n_identity0|].
   split; [apply (proj1 (k_leb Fq _ _)); reflexivity|]. split; [exact w_state_coded|exact w_state_defect]. Qed.
+(* the same for Povm.is_identity_sum AS CODED BEFORE fix C01-povm-is-identity-sum-rtol *)
 Theorem povm_identity_sum_refuted :
   exists (d : nat) (sd : Qc) (B : nat -> cmat Fq) (m : nat) (vs : nat -> rvec Fq) (atol : Qc),
     basis_orthonormal d B /\ basis_hermitian d B /\ @basis_0th_identity Fq d sd B /\ kle Fq (c0 Fq) atol /\
@@ -98,12 +133,66 @@ Proof. exists 4%nat, q2, pauli2n, 2%nat, w_povm, w_atol.
   split; [exact pauli2n_orthonormal|]. split; [exact pauli2n_hermitian|]. split; [exact pauli2n_identity0|].
   split; [apply (proj1 (k_leb Fq _ _)); reflexivity|]. split; [exact w_povm_coded|].
   exists 0%nat, 0%nat. split; [lia|]. split; [lia|]. exact w_povm_defect. Qed.
+(* the repaired verdicts (rtol = 0) reject both witnesses, and the repaired constructors raise on them *)
+Theorem witnesses_rejected_after_fix :
+  state_is_trace_one 4 pauli2n w_state w_atol (c0 Fq) = false /\ @state_ctor_raises Fq w_atol (c0 Fq) 4 pauli2n w_state true = true /\
+  povm_is_identity_sum 4 pauli2n 2 w_povm w_atol (c0 Fq) = false /\ @povm_ctor_raises Fq w_atol (c0 Fq) 4 pauli2n 2 w_povm true = true.
+Proof. split; [exact w_state_fixed|]. split; [exact (proj2 w_state_ctor)|]. split; [exact w_povm_fixed|exact (proj2 w_povm_ctor)]. Qed.
 
-(* ---- non-vacuity: boundary objects that pass every verdict at tolerance 0 *)
-(* |00><00| = (II + IZ + ZI + ZZ)/4 : coefficients 1/2 at indices 0, 3, 12, 15  (pure, rank 1) *)
+(* ---- non-vacuity: concrete objects of every type *)
+Definition q0 : Qc := 0.
+(* |00><00| = (II + IZ + ZI + ZZ)/4 : coefficients 1/2 at indices 0, 3, 12, 15  (pure, rank 1: a boundary object) *)
 Definition ex_pure : rvec Fq := fun a => if (Nat.eqb a 0 || Nat.eqb a 3 || Nat.eqb a 12 || Nat.eqb a 15)%bool then qc 1 2 else 0.
 (* projective two-outcome measurement { |0><0| (x) I , |1><1| (x) I } = B_0 +- B_12 *)
 Definition ex_proj : nat -> rvec Fq := fun x a =>
   if Nat.eqb a 0 then 1 else if Nat.eqb a 12 then (if Nat.eqb x 0 then 1 else - (1)) else 0.
-(* not a state: the same with a negative eigenvalue *)
+(* not a state: I/4 + ZZ/2, unit trace, eigenvalues 3/4 and -1/4 *)
 Definition ex_neg : rvec Fq := fun a => if Nat.eqb a 0 then qc 1 2 else if Nat.eqb a 15 then 1 else 0.
+(* identity gate: HS = I (unitary: a boundary object) *)
+Definition hs_id : rmat Fq := fun a b => if Nat.eqb a b then 1 else 0.
+(* transposition X |-> X^T : diagonal HS matrix, -1 on the basis elements with an odd number of sigma_y factors.
+   Trace preserving and positive but NOT completely positive (Choi matrix = swap operator, eigenvalues +-1) *)
+Definition ysign (a : nat) : Qc := if xorb (Nat.eqb (a / 4) 2) (Nat.eqb (a mod 4) 2) then - (1) else 1.
+Definition hs_transpose : rmat Fq := fun a b => if Nat.eqb a b then ysign a else 0.
+(* twice the identity map: completely positive, not trace preserving *)
+Definition hs_twice : rmat Fq := fun a b => if Nat.eqb a b then qc 2 1 else 0.
+(* a two-outcome instrument: each outcome half the identity map *)
+Definition ex_instr : nat -> rmat Fq := fun _ a b => if Nat.eqb a b then qc 1 2 else 0.
+(* ... and one whose outcomes do not sum to a trace-preserving map *)
+Definition ex_instr_bad : nat -> rmat Fq := fun _ a b => if Nat.eqb a b then qc 2 3 else 0.
+
+Lemma ex_pure_physical : @state_is_physical Fq q0 q0 4 pauli2n ex_pure (Some q0) (Some q0) = true
+                      /\ @state_ctor_raises Fq q0 q0 4 pauli2n ex_pure true = false.
+Proof. unfold state_ctor_raises, ctor_raises. rewrite <- !x_state_phys_eq. split; [compute_true|compute_false]. Qed.
+(* trace verdict true, PSD verdict false at atol = 1/5 (< 1/4), true at atol = 1/4: the threshold is exactly the smallest eigenvalue *)
+Lemma ex_neg_verdicts : state_is_trace_one 4 pauli2n ex_neg q0 q0 = true
+                     /\ @state_is_physical Fq q0 q0 4 pauli2n ex_neg (Some q0) (Some (qc 1 5)) = false
+                     /\ @state_is_physical Fq q0 q0 4 pauli2n ex_neg (Some q0) (Some (qc 1 4)) = true
+                     /\ @state_ctor_raises Fq (qc 1 5) q0 4 pauli2n ex_neg true = true
+                     /\ @state_ctor_raises Fq (qc 1 5) q0 4 pauli2n ex_neg false = false.
+Proof. unfold state_ctor_raises, ctor_raises. rewrite <- !x_state_phys_eq.
+  split; [compute_true|]. split; [compute_false|]. split; [compute_true|]. split; [compute_true|compute_false]. Qed.
+Lemma ex_proj_physical : @povm_is_physical Fq q0 q0 4 pauli2n 2 ex_proj (Some q0) (Some q0) = true
+                      /\ @povm_ctor_raises Fq q0 q0 4 pauli2n 2 ex_proj true = false.
+Proof. unfold povm_ctor_raises, ctor_raises. rewrite <- !x_povm_phys_eq. split; [compute_true|compute_false]. Qed.
+Lemma hs_id_physical : @gate_is_physical Fq q0 true 4 pauli2n hs_id (Some q0) (Some q0) = true
+                    /\ @gate_is_physical Fq q0 false 4 pauli2n hs_id (Some q0) (Some q0) = true
+                    /\ @gate_ctor_raises Fq q0 true 4 pauli2n hs_id true = false.
+Proof. unfold gate_ctor_raises, ctor_raises. rewrite <- !x_gate_phys_eq. split; [compute_true|]. split; [compute_true|compute_false]. Qed.
+Lemma hs_transpose_verdicts : gate_is_tp true 4 pauli2n hs_transpose q0 = true /\ gate_is_tp false 4 pauli2n hs_transpose q0 = true
+                           /\ gate_is_cp 4 pauli2n hs_transpose (qc 1 2) = false /\ gate_is_cp 4 pauli2n hs_transpose 1 = true
+                           /\ @gate_ctor_raises Fq (qc 1 2) true 4 pauli2n hs_transpose true = true.
+Proof. unfold gate_ctor_raises, ctor_raises. rewrite <- !x_gate_phys_eq, <- !x_gate_is_cp_eq.
+  split; [compute_true|]. split; [compute_true|]. split; [compute_false|]. split; [compute_true|compute_true]. Qed.
+Lemma hs_twice_verdicts : gate_is_cp 4 pauli2n hs_twice q0 = true
+                       /\ gate_is_tp true 4 pauli2n hs_twice (qc 1 2) = false /\ gate_is_tp false 4 pauli2n hs_twice (qc 1 2) = false
+                       /\ gate_is_tp true 4 pauli2n hs_twice 1 = true /\ gate_is_tp false 4 pauli2n hs_twice (qc 2 1) = true.
+Proof. rewrite <- !x_gate_is_cp_eq.
+  split; [compute_true|]. split; [compute_false|]. split; [compute_false|]. split; [compute_true|compute_true]. Qed.
+Lemma ex_instr_physical : @mprocess_is_physical Fq q0 true 4 pauli2n 2 ex_instr (Some q0) (Some q0) = true
+                       /\ @mprocess_ctor_raises Fq q0 true 4 pauli2n 2 ex_instr true = false
+                       /\ @mprocess_ctor_raises Fq q0 false 4 pauli2n 2 ex_instr false = true
+                       /\ @mprocess_is_physical Fq q0 true 4 pauli2n 2 ex_instr_bad (Some (qc 1 4)) (Some q0) = false
+                       /\ @mprocess_is_physical Fq q0 true 4 pauli2n 2 ex_instr_bad (Some (qc 1 3)) (Some q0) = true.
+Proof. unfold mprocess_ctor_raises, ctor_raises. rewrite <- !(x_mp_phys_eq _ _ 4) by lia.
+  split; [compute_true|]. split; [compute_false|]. split; [compute_true|]. split; [compute_false|compute_true]. Qed.
